@@ -65,6 +65,7 @@ class Ctx:
         self.cons = []        # (constraint, frozenset of variable names)
         self.branch_timeout_ms = branch_timeout_ms
         self.unknown_branches = 0
+        self.quick_decided = 0
         self.stub_calls = {}
         self.trace = []       # branch descriptions
 
@@ -144,6 +145,7 @@ def cone(cons, t):
 
 
 CTX: Ctx | None = None
+MODE = {}              # harness options: {'abs': 'ite'|'fork', 'max': 'ite'|'fork'} (default fork)
 EXP_SECANT = False     # harness option: add the secant (concavity) axiom between exp applications
 FLOAT_HOOK = None      # called with the SymReal whenever float() is taken (concolic printing)
 
@@ -257,8 +259,16 @@ class SymBool:
             # replaying a prefix: every symbolic branch consumes one entry
             d, _forked = c.decisions[c.pos]
         else:
-            ft = c.feasible(t)
-            ff = c.feasible(z3.Not(t))
+            bnds = _bounds_of(c.cons)
+            q = quick_decide(self.t, bnds)
+            if q is None:
+                q = quick_decide(t, bnds)
+            if q is not None:
+                c.quick_decided += 1
+                ft, ff = q, (not q)
+            else:
+                ft = c.feasible(t)
+                ff = c.feasible(z3.Not(t))
             if ft and ff:
                 d, forked = True, True
             elif ft:
@@ -383,6 +393,13 @@ class SymReal:
         return self
 
     def __abs__(self):
+        sg = sign3(z3.simplify(self.t), _bounds_of(ctx().cons))
+        if not sg[0]:
+            return self            # never negative
+        if not sg[2]:
+            return -self           # never positive
+        if MODE.get('abs') == 'ite':
+            return SymReal(z3.If(self.t >= 0, self.t, -self.t), None if self.shadow is None else abs(self.shadow))
         # fork on the sign: keeps terms ite-free
         if self >= 0:
             return self
@@ -750,6 +767,15 @@ def sym_maximum(a, b):
     if isinstance(a, np.ndarray) or isinstance(b, np.ndarray):
         return np.frompyfunc(sym_maximum, 2, 1)(np.asarray(a, dtype=object), np.asarray(b, dtype=object))
     if isinstance(a, (SymReal,)) or isinstance(b, SymReal):
+        sg = sign3(z3.simplify(lift(a) - lift(b)), _bounds_of(ctx().cons))
+        if not sg[0]:
+            return a if isinstance(a, SymReal) else const(a)
+        if not sg[2]:
+            return b if isinstance(b, SymReal) else const(b)
+        if MODE.get('max') == 'ite':
+            ta, tb = lift(a), lift(b)
+            sa, sb = _shadow(a), _shadow(b)
+            return SymReal(z3.If(ta >= tb, ta, tb), None if sa is None or sb is None else max(sa, sb))
         return a if a >= b else b
     return max(a, b)
 
@@ -834,6 +860,157 @@ SymNaN = _SymNaN()
 # --------------------------------------------------------------------------
 # explorer
 # --------------------------------------------------------------------------
+# --------------------------------------------------------------------------
+# sign analysis: a sound, cheap pre-filter for branch feasibility
+# --------------------------------------------------------------------------
+ALL3 = (True, True, True)      # (can be negative, can be zero, can be positive)
+
+
+def _bounds_of(cons):
+    """variable name -> [lo, lo_strict, hi, hi_strict] from constraints of the shape  v op numeral"""
+    b = {}
+    for c, _ in cons:
+        if not z3.is_app(c) or c.num_args() != 2:
+            continue
+        k = c.decl().kind()
+        if k not in (z3.Z3_OP_LE, z3.Z3_OP_LT, z3.Z3_OP_GE, z3.Z3_OP_GT):
+            continue
+        l, r = c.arg(0), c.arg(1)
+        vl, vr = _num_value(l), _num_value(r)
+        if vr is not None and z3.is_const(l) and l.decl().kind() == z3.Z3_OP_UNINTERPRETED:
+            name, val = l.decl().name(), vr
+        elif vl is not None and z3.is_const(r) and r.decl().kind() == z3.Z3_OP_UNINTERPRETED:
+            name, val = r.decl().name(), vl
+            k = {z3.Z3_OP_LE: z3.Z3_OP_GE, z3.Z3_OP_LT: z3.Z3_OP_GT, z3.Z3_OP_GE: z3.Z3_OP_LE, z3.Z3_OP_GT: z3.Z3_OP_LT}[k]
+        else:
+            continue
+        e = b.setdefault(name, [None, False, None, False])
+        if k in (z3.Z3_OP_GE, z3.Z3_OP_GT):
+            strict = k == z3.Z3_OP_GT
+            if e[0] is None or val > e[0] or (val == e[0] and strict):
+                e[0], e[1] = val, strict
+        else:
+            strict = k == z3.Z3_OP_LT
+            if e[2] is None or val < e[2] or (val == e[2] and strict):
+                e[2], e[3] = val, strict
+    return b
+
+
+def _sgn_add(a, b):
+    neg = a[0] or b[0]
+    pos = a[2] or b[2]
+    zero = (a[1] and b[1]) or (a[0] and b[2]) or (a[2] and b[0])
+    return (neg, zero, pos)
+
+
+def _sgn_mul(a, b):
+    neg = (a[0] and b[2]) or (a[2] and b[0])
+    pos = (a[0] and b[0]) or (a[2] and b[2])
+    zero = a[1] or b[1]
+    return (neg, zero, pos)
+
+
+def sign3(t, bounds, depth=0, memo=None):
+    """over-approximation of the possible signs of real term t"""
+    if memo is None:
+        memo = {}
+    key = t.get_id()
+    if key in memo:
+        return memo[key]
+    r = _sign3(t, bounds, depth, memo)
+    if r == ALL3 and z3.is_app(t) and t.decl().kind() in (z3.Z3_OP_ADD, z3.Z3_OP_SUB) and depth < 50:
+        # retry on the expanded sum of monomials (cancels  m*c - c*m  and the like)
+        try:
+            e = z3.simplify(t, som=True)
+            if not e.eq(t):
+                r2 = _sign3(e, bounds, depth + 1, memo)
+                r = (r[0] and r2[0], r[1] and r2[1], r[2] and r2[2])
+        except z3.Z3Exception:
+            pass
+    memo[key] = r
+    return r
+
+
+def _sign3(t, bounds, depth, memo):
+    v = _num_value(t)
+    if v is not None:
+        return (v < 0, v == 0, v > 0)
+    if depth > 200 or not z3.is_app(t):
+        return ALL3
+    k = t.decl().kind()
+    if z3.is_const(t) and k == z3.Z3_OP_UNINTERPRETED:
+        e = bounds.get(t.decl().name())
+        if e is None:
+            return ALL3
+        lo, ls, hi, hs = e
+        neg = not (lo is not None and lo >= 0)
+        pos = not (hi is not None and hi <= 0)
+        zero = not ((lo is not None and (lo > 0 or (lo == 0 and ls))) or (hi is not None and (hi < 0 or (hi == 0 and hs))))
+        return (neg, zero, pos)
+    ch = t.children()
+    if k == z3.Z3_OP_ADD:
+        r = sign3(ch[0], bounds, depth + 1, memo)
+        for c in ch[1:]:
+            r = _sgn_add(r, sign3(c, bounds, depth + 1, memo))
+        return r
+    if k == z3.Z3_OP_SUB:
+        r = sign3(ch[0], bounds, depth + 1, memo)
+        for c in ch[1:]:
+            x = sign3(c, bounds, depth + 1, memo)
+            r = _sgn_add(r, (x[2], x[1], x[0]))
+        return r
+    if k == z3.Z3_OP_UMINUS:
+        x = sign3(ch[0], bounds, depth + 1, memo)
+        return (x[2], x[1], x[0])
+    if k == z3.Z3_OP_MUL:
+        r = sign3(ch[0], bounds, depth + 1, memo)
+        for c in ch[1:]:
+            r = _sgn_mul(r, sign3(c, bounds, depth + 1, memo))
+        return r
+    if k == z3.Z3_OP_DIV:
+        a = sign3(ch[0], bounds, depth + 1, memo)
+        b = sign3(ch[1], bounds, depth + 1, memo)
+        b = (b[0], False, b[2])        # a recorded division: denominator != 0 is a path assumption
+        if not (b[0] or b[2]):
+            return ALL3
+        return _sgn_mul(a, b)
+    if k == z3.Z3_OP_ITE:
+        a = sign3(ch[1], bounds, depth + 1, memo)
+        b = sign3(ch[2], bounds, depth + 1, memo)
+        return (a[0] or b[0], a[1] or b[1], a[2] or b[2])
+    return ALL3
+
+
+def quick_decide(t, bounds):
+    """True / False if the comparison t is decided by sign analysis, else None"""
+    if not z3.is_app(t):
+        return None
+    k = t.decl().kind()
+    if k == z3.Z3_OP_NOT:
+        r = quick_decide(t.arg(0), bounds)
+        return None if r is None else (not r)
+    if k in (z3.Z3_OP_EQ, z3.Z3_OP_DISTINCT, z3.Z3_OP_LE, z3.Z3_OP_LT, z3.Z3_OP_GE, z3.Z3_OP_GT) and t.num_args() == 2 \
+            and z3.is_arith(t.arg(0)):
+        memo = {}
+        a = sign3(z3.simplify(t.arg(0)), bounds, 0, memo)
+        b = sign3(z3.simplify(t.arg(1)), bounds, 0, memo)
+        d = _sgn_add(a, (b[2], b[1], b[0]))      # sign of lhs - rhs
+        neg, zero, pos = d
+        if k == z3.Z3_OP_EQ:
+            return False if not zero else (True if not (neg or pos) else None)
+        if k == z3.Z3_OP_DISTINCT:
+            return True if not zero else (False if not (neg or pos) else None)
+        if k == z3.Z3_OP_GE:
+            return True if not neg else (False if not (zero or pos) else None)
+        if k == z3.Z3_OP_GT:
+            return True if not (neg or zero) else (False if not pos else None)
+        if k == z3.Z3_OP_LE:
+            return True if not pos else (False if not (zero or neg) else None)
+        if k == z3.Z3_OP_LT:
+            return True if not (pos or zero) else (False if not neg else None)
+    return None
+
+
 class Path:
     def __init__(self, c, result, exc):
         self.pc = list(c.pc)
